@@ -85,7 +85,7 @@ Proof. intros. unfold step_trace. repeat destr_match; auto with c09. apply exec_
 
 (* events of a single trace = what its notification delivers *)
 Lemma single_events : forall t, single t ->
-  events_of t = [] \/ exists st ups stop, In (TN st ups stop) t /\ events_of t = deliver st ups stop.
+  events_of t = [] \/ exists st ups stop, In (TN st ups stop) t /\ events_of t = deliver st (map (refresh st) ups) stop.
 Proof.
   intros t [S|(t0 & st & ups & stop & E & S)].
   - left. apply silent_events; auto.
